@@ -26,8 +26,8 @@ REQUIRED_COUNTERS = {"quick": {"ok:returned": 20000, "error:max>p": 1000, "error
                                "boundary:maxK=p": 50, "coverage:sizes-asserted": 10, "coverage:variables-asserted": 20},
                      "thorough": {"ok:returned": 100000, "error:max>p": 5000, "error:tuple-length": 100, "error:without-replacement-impossible": 5000,
                                   "boundary:maxK=p": 50, "coverage:sizes-asserted": 10, "coverage:variables-asserted": 20}}
-SEEDS = {"quick": 10, "thorough": 60}
-BSEEDS = {"quick": 400, "thorough": 4000}
+SEEDS = {"quick": 10, "thorough": 300}
+BSEEDS = {"quick": 400, "thorough": 20000}
 
 
 def grid():
